@@ -21,6 +21,7 @@ from __future__ import annotations
 
 import ast
 import os
+import re
 import textwrap
 from dataclasses import dataclass, field
 from pathlib import Path
@@ -180,6 +181,13 @@ class FnTr:
         self.vars = {k: parse_type(v) for k, v in spec.vars.items()}
         self.tmp = 0
         self.extra_vars = {}               # temporaries introduced by comprehension lowering
+        self.aux = []                      # hoisted loop bodies / conditions: (name, lean type, code)
+        self.nloop = 0
+        self.hoist = True                  # switched off for recursive functions (their body is a local definition)
+        cbb = " ".join(b for b, _, _ in spec.callbacks.values())
+        tpsi = " ".join(f"{{{t} : Type}} [Inhabited {t}]" for t in spec.tparams)
+        self.binders_nofuel = f"{tpsi} {cbb}".strip()
+        self.bargs_nofuel = " ".join(list(spec.callbacks.keys()))
         tapp = (" " + " ".join(spec.tparams)) if spec.tparams else ""
         self.Vt = f"({spec.lean}.V{tapp})" if spec.tparams else f"{spec.lean}.V"
 
@@ -255,6 +263,27 @@ class FnTr:
             s, c, t = self.tr(x)
             steps += s; codes.append(c); tys.append(t)
         return steps, "[" + ", ".join(codes) + "]", ("List", tys[0])
+
+    def e_Dict(self, e, want):
+        if not (isinstance(want, tuple) and want[0] == "Dict"):
+            raise Untranslatable(f"{self.spec.lean}: dict literal of unknown type `{ast.unparse(e)}`")
+        steps, code = [], f"([] : {show_type(want)})"
+        for k, v in zip(e.keys, e.values):
+            s1, kc, _ = self.tr(k); s2, vc, vt = self.tr(v, want[2])
+            steps += s1 + s2
+            code = f"(Py.Dict.set {code} {kc} {self.coerce(vc, vt, want[2])})"
+        return steps, code, want
+
+    def coerce(self, code, have, want):
+        """Python values of an optional slot: `x` where `Option X` is expected becomes `some x`"""
+        if have == want:
+            return code
+        if isinstance(want, tuple) and want[0] == "Option":
+            if have == want[1]:
+                return f"(some {code})"
+            if isinstance(have, tuple) and have[0] == "Option" and have[1] == "Unit":
+                return f"(none : {show_type(want)})"
+        raise Untranslatable(f"{self.spec.lean}: a value of type {have} where {want} is expected (`{code}`)")
 
     def e_UnaryOp(self, e, want):
         s, c, t = self.tr(e.operand)
@@ -351,6 +380,11 @@ class FnTr:
         return s1 + s2, f"(decide ({a} {sym} {b}))", "Bool"
 
     def e_IfExp(self, e, want):
+        # `cb(...) if cb is not None else None`: callbacks are always present (an absent callback is the trivial one)
+        t = e.test
+        if (isinstance(t, ast.Compare) and len(t.ops) == 1 and isinstance(t.ops[0], ast.IsNot) and isinstance(t.left, ast.Name)
+                and t.left.id in self.spec.callbacks and isinstance(t.comparators[0], ast.Constant) and t.comparators[0].value is None):
+            return self.tr(e.body, want)
         s0, c, tc = self.tr(e.test)
         s1, a, ta = self.tr(e.body, want)
         s2, b, tb = self.tr(e.orelse, want)
@@ -502,6 +536,10 @@ class FnTr:
                 s, c, _ = self.tr(x); steps += s; codes.append(c)
             return steps, f"({ctor[0]} {' '.join(codes)})", ctor[1]
         # --- builtins
+        if isinstance(e.func, ast.Subscript) and ast.unparse(e.func.value) in ("dict", "list") and not args:
+            if not isinstance(want, tuple):
+                raise Untranslatable(f"{self.spec.lean}: `{ast.unparse(e)}` of unknown type")
+            return [], f"([] : {show_type(want)})", want
         if f == "len" and len(args) == 1:
             s, c, t = self.tr(args[0])
             if isinstance(t, tuple) and t[0] in ("List", "Dict"):
@@ -683,9 +721,11 @@ class FnTr:
             lv = self.lvalue(tgt.value)
             n = self.bindname()
             if ta[0] == "List" and ti == "Int":
+                x = self.coerce(x, tx, ta[1])
                 # the container is re-read after the right-hand side was evaluated (it may have been updated by a call)
                 return self.chain(s1 + s2 + [f"Py.bind (Py.setIdx {self.reread(tgt.value)} {i} {x}) fun {n} =>"], ".next " + lv(n))
             if ta[0] == "Dict":
+                x = self.coerce(x, tx, ta[2])
                 return self.chain(s1 + s2, ".next " + lv(f"(Py.Dict.set {self.reread(tgt.value)} {i} {x})"))
         raise Untranslatable(f"{self.spec.lean}: assignment `{ast.unparse(s)}`")
 
@@ -740,7 +780,22 @@ class FnTr:
         else:
             n = len(s.target.elts)
             upd = "{ v with " + ", ".join(f"{lname(x.id)} := {proj('x', k, n)}" for k, x in enumerate(s.target.elts)) + " }"
+        if self.hoist:
+            self.nloop += 1
+            nm = f"{self.spec.lean}.for{self.nloop}"
+            code = f"fun x (v : {self.Vt}) => {body} {upd}"
+            self.aux.append((nm, f"{show_type(et)} → {self.Vt} → Py.Res {self.Vt} {show_type(parse_type(self.spec.ret))}", code))
+            return self.chain(st, f"Py.forEach ({nm} {self.args_for(code)}) {it} v")
         return self.chain(st, f"Py.forEach (fun x (v : {self.Vt}) => {body} {upd}) {it} v")
+
+    def args_for(self, code):
+        """arguments of a hoisted definition: the callbacks, and the fuel only if the code uses it (nested `while`, calls)"""
+        uses_fuel = self.spec.fuel and re.search(r"\bfuel\b", code) is not None
+        return (self.bargs_nofuel + (" fuel" if uses_fuel else "")).strip()
+
+    def binders_for(self, code):
+        uses_fuel = self.spec.fuel and re.search(r"\bfuel\b", code) is not None
+        return (self.binders_nofuel + (" (fuel : Nat)" if uses_fuel else "")).strip()
 
     def s_While(self, s):
         if s.orelse:
@@ -750,11 +805,21 @@ class FnTr:
         st, c, t = self.tr(s.test)
         cond = self.opt_block(st, self.as_bool(c, t))
         body = self.block(s.body)
+        if self.hoist:
+            self.nloop += 1
+            nm = f"{self.spec.lean}.while{self.nloop}"
+            rt = show_type(parse_type(self.spec.ret))
+            ccode = f"fun (v : {self.Vt}) => {cond}"
+            self.aux.append((nm + "_cond", f"{self.Vt} → Option Bool", ccode))
+            self.aux.append((nm + "_body", f"{self.Vt} → Py.Res {self.Vt} {rt}", body))
+            return f"(Py.whileF ({nm}_cond {self.args_for(ccode)}) ({nm}_body {self.args_for(body)}) fuel)"
         return f"(Py.whileF (fun (v : {self.Vt}) => {cond}) {body} fuel)"
 
     # ---- whole function ------------------------------------------------------------------
     def translate(self, fdef: ast.FunctionDef) -> str:
         sp = self.spec
+        self.hoist = not (sp.fuel and (f"self.{sp.func}(" in ast.unparse(fdef) or any(
+            isinstance(n, ast.Call) and ast.unparse(n.func) == sp.func for n in ast.walk(fdef))))
         body = self.block(fdef.body)
         allvars = dict(self.vars)
         allvars.update(self.extra_vars)
@@ -788,7 +853,7 @@ class FnTr:
                  f"structure {sp.lean}.V {tps} where".replace("  ", " ").rstrip() if not sp.tparams else f"structure {sp.lean}.V {tps} where",
                  fields]
         inh = " ".join(f"[Inhabited {t}]" for t in sp.tparams)
-        lines.append(f"instance {tpsi} : Inhabited ({sp.lean}.V{tapp}) := ⟨{{ " + ", ".join(
+        lines.append(f"instance {sp.lean}.instV {tpsi} : Inhabited ({sp.lean}.V{tapp}) := ⟨{{ " + ", ".join(
             f"{lname(k)} := default" for k in list(allvars) + (["cbs"] if sp.callbacks else [])) + " }⟩")
         Vt = f"({sp.lean}.V{tapp})" if sp.tparams else f"{sp.lean}.V"
         if rec:
@@ -802,6 +867,8 @@ class FnTr:
             lines.append(f"    let body : {Vt} → Py.Res {Vt} {ret_t} :=\n" + textwrap.indent(body, "      "))
             lines.append(f"    (Py.finish {dflt} (body {{ (default : {Vt}) with {init} }})).map fun r => {out_c}")
         else:
+            for nm, ty, code in self.aux:
+                lines.append(f"def {nm} {self.binders_for(code)} : {ty} :=\n" + textwrap.indent(code, "  "))
             lines.append(f"/-- body of {doc} -/")
             lines.append(f"def {sp.lean}.body {tpsi} {cbb} {fuel}: {Vt} → Py.Res {Vt} {ret_t} :=\n" + textwrap.indent(body, "  "))
             lines.append(f"/-- {doc} -/")
@@ -859,6 +926,15 @@ spec(lean="dsu_union_sets", file="swcgeom/utils/dsu.py", cls="DisjointSetUnion",
 spec(lean="dsu_is_same_set", file="swcgeom/utils/dsu.py", cls="DisjointSetUnion", func="is_same_set",
      params=["self", "node_a", "node_b"], vars={"self": "DisjointSetUnion", "node_a": "Int", "node_b": "Int"},
      ret="Bool", out=["self"], fuel=True, callee=["self.is_same_set", "dsu.is_same_set"])
+
+
+spec(lean="traverse_dfs", module="AlgoTraverse", file="swcgeom/core/swc_utils/base.py", func="_traverse_dfs",
+     params=["topology", "root"],
+     vars={"topology": "(List Int) × (List Int)", "root": "Int", "children_map": "Dict Int (List Int)", "idx": "Int", "pid": "Int",
+           "stack": "List (Int × Bool)", "params": "Dict Int (Option T)", "vals": "Dict Int K", "is_enter": "Bool",
+           "pre": "Option T", "cur": "T", "child": "Int", "children": "List K"},
+     ret="K", fuel=True, tparams=["σ", "T", "K"],
+     callbacks={"enter": ("(enter : σ → Int → Option T → σ × T)", 2, "T"), "leave": ("(leave : σ → Int → List K → σ × K)", 2, "K")})
 
 
 def regenerate(modules=None):
